@@ -195,6 +195,15 @@ func checkC19Inner(c c19Case) *ev.Failure {
 			}
 			return f
 		}
+		if i == 0 {
+			// the same files compiled for other targets in between, in this process (a build that
+			// generates several languages): that must leave no trace in later output
+			for j, other := range []string{"java", "go", "dart", "py"} {
+				if strings.SplitN(c.Target, ":", 2)[0] != other {
+					compileInProcess(root, other, filepath.Join(dir, "a", fmt.Sprintf("other%d", j)), c.Delim, true)
+				}
+			}
+		}
 	}
 	// the same sources at a different absolute location, different -out directory name
 	srcB := filepath.Join(dir, "somewhere", "else", "deeper", "tree")
